@@ -1,4 +1,5 @@
-/-! Driver executable for family `gossip` — placeholder until the family is built. -/
+import Whv.Driver.Gossip
+/-! Driver executable for family `gossip` (C03): case lines on stdin, verdict lines on stdout. -/
 def main : IO UInt32 := do
-  IO.eprintln "family not built"
-  return 2
+  Whv.Driver.GossipFam.run (← IO.getStdin)
+  return 0
